@@ -99,18 +99,19 @@ def run(desc, ctx):
     ctx.nontrivial(0 < len(sols) < full)
 
     # CNF satisfiable <=> CP satisfiable
-    cnf_sat = sat_ref.dpll(clauses) is not None
+    F = sat_ref.CNF(clauses)
+    cnf_sat = F.solve() is not None
     if cnf_sat != bool(sols):
         raise Violation("equisat:cnf-sat-but-cp-unsat" if cnf_sat else "equisat:cnf-unsat-but-cp-sat", {"cp_solutions": len(sols)})
 
     # exactly-one over each named variable's booleans is entailed
     for name, mp in maps.items():
         lits = list(mp.values())
-        if cnf_sat and sat_ref.dpll(clauses, {abs(l): False for l in lits}) is not None:
+        if cnf_sat and F.solve({abs(l): False for l in lits}) is not None:
             raise Violation("exactly-one:variable-may-have-no-value", {"var": name})
         for i in range(len(lits)):
             for j in range(i + 1, len(lits)):
-                if sat_ref.dpll(clauses, {lits[i]: True, lits[j]: True}) is not None:
+                if F.solve({lits[i]: True, lits[j]: True}) is not None:
                     raise Violation("exactly-one:variable-may-have-two-values", {"var": name})
 
     # every assignment: CNF ∧ units(a) satisfiable <=> a is a CP solution
@@ -118,7 +119,7 @@ def run(desc, ctx):
     for a in cp_sem.assignments(desc):
         ctx.count("disagreements_checked")
         asg = {abs(l): (l > 0) for l in units(maps, a)}
-        mod = sat_ref.dpll(clauses, asg)
+        mod = F.solve(asg)
         is_sol = tuple(sorted(a.items())) in sol_keys
         if mod is not None and not is_sol:
             broken = next(c for c in desc["cons"] if not cp_sem.holds(c, a))
@@ -154,4 +155,4 @@ def run(desc, ctx):
             raise Violation("decode:solutions-differ-from-models", {"decoded": got, "expected": expect})
 
 
-SUBS = [Sub("translate", run, strategy=lambda tier: cpmodel.model(for_tv=True), quick=600, thorough=6000, workers_quick=4)]
+SUBS = [Sub("translate", run, strategy=lambda tier: cpmodel.model(for_tv=True), quick=2000, thorough=12000, workers_quick=4)]
